@@ -426,6 +426,12 @@ def run_property(prop, module, theorems, tier, seed, nquick, nthorough, feature_
     # times are judged when the execution order is determined: one thread, or threads under an explicit schedule
     with_time = [not p['threads'] or p.get('sched') is not None for p in programs]
     model_built = not any('build of' in f for f in res.obl['failures'])
+    if not model_built:
+        # the property file may be broken by the source tie alone (the translator refused the source / the generated
+        # core no longer equals the model): the hand model and the shard evaluator are still worth running, their
+        # disagreement with the implementation is the failing input
+        rc, _ = core.coq_make(['theories/Trace/Shard.vo'])
+        model_built = rc == 0
     verdict, errors = ({}, [])
     if model_built:
         verdict, errors = coq_verdicts(prop.lower(), programs, outs, with_time)
